@@ -444,3 +444,78 @@ Definition start_step_f (f : fault) (p : params) (times : list Z) (now : Z) (st 
     end
   | inl _ => start_step p times now st
   end.
+
+(** * The gossip verifier closure registered by Start (sync/syncer.go)
+
+    incomingNetworkHead(h) verifies the new network head h against the local head
+    and makes it the sync target (an adjacent head is stored at once); then
+    subjectiveTail(h) recomputes the tail, its error is only logged. The closure
+    fails only when the verification refuses h. *)
+Definition gossip_step (p : params) (times : list Z) (st : store) : obs :=
+  let n := net_head times in
+  if negb (st_empty st) && (s_head st <? n) && (tm0 times (s_head st) <=? tm0 times n)%Z then
+    let '(o, _) := subjective_tail p times (st_sync_up st n) in
+    match o_out o with
+    | OPanic => o
+    | _ => Obs OOk (o_req o) (o_store o)
+    end
+  else Obs OErr [] st.
+
+(** * The other requests of subjectiveTail: Get(hash) and the GetRangeByHeight
+    chunks of the downward sync, in order, up to the call that fails *)
+Inductive greq := GHash (k : N) | GRange (from to : N).
+
+Fixpoint down_reqs (fuel : nat) (f : fault) (g w : nat) (cur t : N) : list greq :=
+  match fuel with
+  | O => []
+  | S fu =>
+    if t <=? cur then []
+    else let hi := N.min (cur + chunk_size) t in
+         GRange cur (hi + 1) ::
+           (if fget f g || fwrite f w then [] else down_reqs fu f (S g) (S w) hi t)
+  end.
+
+Definition move_reqs (f : fault) (g w : nat) (old : option N) (x : N) : list greq :=
+  match old with
+  | Some t => if x <? t then down_reqs (S (N.to_nat (t - x))) f g w x t else []
+  | None => []
+  end.
+
+Definition fetch_reqs (f : fault) (times : list Z) (old : option N) (x : N) : list greq :=
+  if fget f 0 then []
+  else if in_chain times x then if fwrite f 0 then [] else move_reqs f 1 1 old x
+  else [].
+
+Definition tail_reqs (f : fault) (p : params) (times : list Z) (st : store) : list greq :=
+  let n := net_head times in
+  let old := if st_empty st then None else Some (s_tail st) in
+  match p_hash p with
+  | HBadHex => []
+  | HAt k =>
+    if match old with Some t => (k =? t) && in_chain times k | None => false end
+    then []
+    else if in_chain times k && st_has st k
+    then move_reqs f 0 0 old k
+    else GHash (if in_chain times k then k else 0) :: fetch_reqs f times old k
+  | HNone =>
+    let oldp := match old with
+                | Some t => match tm times t with Some t0 => Some (t, t0) | None => None end
+                | None => None
+                end in
+    let headT := match tm times n with Some t => t | None => 0%Z end in
+    let time_at := fun h => if st_has st h then tm times h else None in
+    match tail_height p oldp n headT (st_height st) time_at with
+    | TVal x =>
+      if (x <=? st_height st) && (x =? 0) then []
+      else if (x <=? st_height st) && st_has st x
+      then move_reqs f 0 0 old x
+      else fetch_reqs f times old x
+    | _ => []
+    end
+  end.
+
+Definition start_reqs (f : fault) (p : params) (times : list Z) (now : Z) (st : store) : list greq :=
+  match start_call p times now st with
+  | inr (_, st1) => tail_reqs f p times st1
+  | inl _ => []
+  end.
